@@ -600,7 +600,208 @@ fn replay_one(rep: &mut Report, drv: &mut Driver, v: &Value) {
 
 /// Hand-written cases run first on every run: one per clause of the statement.
 /// (source, s-expression, return type, args)
-fn corpus() -> Vec<(&'static str, Prog)> {
+fn corpus() -> Vec<(String, Prog)> {
+    let mut out: Vec<(String, Prog)> = corpus_clauses().into_iter().map(|(n, p)| (n.to_string(), p)).collect();
+    out.extend(corpus_records());
+    out.extend(corpus_matches());
+    out
+}
+
+/// Class representatives for "only the selected arm runs, guards tried in source order", over
+/// the whole small table (variant the pattern names) x (variant of the examinee), for the enum
+/// `E` (three variants) and for `i32?`:
+///  * one named variant and `_`:            `match v { V_a(..) => .., _ => .. }`
+///  * guarded `_` between two variants:      `match v { V_a(..) if g1 => .., _ if g2 => .., V_b(..) if g3 => .., _ => .. }`
+/// The examinee's variant is fixed per program; the guards depend on the arguments (all four
+/// combinations of g1, g2 occur among the corpus arguments).
+fn corpus_matches() -> Vec<(String, Prog)> {
+    use E::{Bin, Bool, Ctor, Host, Int, Match, Var};
+    let b = |e: E| Box::new(e);
+    let em = |k: i32, v: E| Host(H_EMIT, vec![Int(k), v]);
+    let emb = |k: i32, v: E| Host(H_EMIT_B, vec![Int(k), v]);
+    let last = |e: E| Blk { stmts: vec![], last: Some(Box::new(e)) };
+    let mut out = vec![];
+    for is_opt in [false, true] {
+        let nvar = if is_opt { 2 } else { 3 };
+        let arity = |v: usize| if is_opt { [1, 0][v] } else { VARIANTS[v].1 };
+        let vname = |v: usize| if is_opt { ["Some", "None"][v] } else { VARIANTS[v].0 };
+        let examinee = |v: usize| -> E {
+            if is_opt {
+                // emit_o(k, n) is Some(n) for even n, None for odd n
+                Host(H_EMIT_O, vec![Int(9), Int(if v == 0 { 4 } else { 3 })])
+            } else {
+                Ctor(v, (0..arity(v)).map(|j| em(90 + j as i32, Var(j))).collect())
+            }
+        };
+        for k in 0..nvar {
+            for a in 0..nvar {
+                // one named variant and `_`
+                let mut tys = vec![T::I, T::I, T::B];
+                let binds: Vec<usize> = (0..arity(a)).map(|_| { tys.push(T::I); tys.len() - 1 }).collect();
+                let arms = vec![
+                    Arm { pat: Pat::Variant(a, binds), guard: None, body: last(em(1, Int(10))) },
+                    Arm { pat: Pat::Wild, guard: None, body: last(em(2, Int(20))) },
+                ];
+                out.push((
+                    format!("match on {}: the only pattern names {}, `_` for the rest; the value is {}", if is_opt { "i32?" } else { "E" }, vname(a), vname(k)),
+                    Prog { fns: vec![Fn_ { params: vec![0, 1, 2], ret: T::I, body: last(Match(b(examinee(k)), is_opt, arms)) }], var_tys: tys },
+                ));
+                for c in 0..nvar {
+                    if c == a {
+                        continue;
+                    }
+                    // a guarded `_` written between the (guarded) arms of two variants, `_` last
+                    let mut tys = vec![T::I, T::I, T::B];
+                    let ba: Vec<usize> = (0..arity(a)).map(|_| { tys.push(T::I); tys.len() - 1 }).collect();
+                    let bc: Vec<usize> = (0..arity(c)).map(|_| { tys.push(T::I); tys.len() - 1 }).collect();
+                    let arms = vec![
+                        Arm { pat: Pat::Variant(a, ba), guard: Some(emb(1, Var(2))), body: last(em(2, Int(10))) },
+                        Arm { pat: Pat::Wild, guard: Some(emb(3, Bin(Op::Gt, b(Var(1)), b(Int(5))))), body: last(em(4, Int(20))) },
+                        Arm { pat: Pat::Variant(c, bc), guard: Some(emb(5, Bool(true))), body: last(em(6, Int(30))) },
+                        Arm { pat: Pat::Wild, guard: None, body: last(em(7, Int(40))) },
+                    ];
+                    out.push((
+                        format!("match on {}: {} if g1, _ if g2, {} if g3, _; the value is {}", if is_opt { "i32?" } else { "E" }, vname(a), vname(c), vname(k)),
+                        Prog { fns: vec![Fn_ { params: vec![0, 1, 2], ret: T::I, body: last(Match(b(examinee(k)), is_opt, arms)) }], var_tys: tys },
+                    ));
+                }
+            }
+        }
+    }
+    out
+}
+
+/// Class representatives for "the order in which something is WRITTEN is not the order in which
+/// its type declares it": a literal of `R` in each of the six orders of its three fields, with
+/// the type's name, anonymous under an annotation, anonymous on the right of an assignment, and
+/// anonymous with a type of its own; effects one level down (a later-written field assigns what
+/// an earlier-written one read; a field leaves the function).
+fn corpus_records() -> Vec<(String, Prog)> {
+    use E::{Assign, Bin, Block, Field, Host, If1, Int, Record, Ret, Var};
+    let b = |e: E| Box::new(e);
+    let em = |k: i32, v: E| Host(H_EMIT, vec![Int(k), v]);
+    let main = |body: Blk, extra: Vec<T>| {
+        let mut var_tys = vec![T::I, T::I, T::B];
+        var_tys.extend(extra);
+        Prog { fns: vec![Fn_ { params: vec![0, 1, 2], ret: T::I, body }], var_tys }
+    };
+    // emit3(4, x3.b, x3.c) - x3.a: every field of the result is observed
+    let observe = || Bin(Op::Sub, b(Host(H_EMIT3, vec![Int(4), Field(b(Var(3)), 0), Field(b(Var(3)), 1)])), b(Field(b(Var(3)), 2)));
+    let order = |perm: &[usize; 3]| perm.iter().map(|i| FIELDS[*i]).collect::<Vec<_>>().join(",");
+    let mut out = vec![];
+    for perm in PERMS.iter() {
+        let lit = |anon: bool| Record(anon, vec![(perm[0], em(1, Var(0))), (perm[1], em(2, Var(1))), (perm[2], em(3, Int(7)))]);
+        out.push((
+            format!("record literal R {{ {} }}: fields run as written", order(perm)),
+            main(Blk { stmts: vec![S::Let(3, lit(false))], last: Some(b(observe())) }, vec![T::R]),
+        ));
+        out.push((
+            format!("anonymous record literal {{ {} }} under `let x: R`: fields run as written", order(perm)),
+            main(Blk { stmts: vec![S::Let(3, lit(true))], last: Some(b(observe())) }, vec![T::R]),
+        ));
+        out.push((
+            format!("anonymous record literal {{ {} }} assigned to a variable of type R: fields run as written", order(perm)),
+            main(
+                Blk { stmts: vec![S::Let(3, Record(false, vec![(0, Int(0)), (1, Int(0)), (2, Int(0))])), S::Do(Assign(3, b(lit(true))))], last: Some(b(observe())) },
+                vec![T::R],
+            ),
+        ));
+        out.push((
+            format!("anonymous record literal {{ {} }} with a type of its own: fields run as written", order(perm)),
+            main(Blk { stmts: vec![], last: Some(b(Field(b(lit(true)), perm[1]))) }, vec![]),
+        ));
+        // a later-written field assigns the variable an earlier-written field has read, and a
+        // still later one reads it again
+        out.push((
+            format!("record literal R {{ {} }}: a later-written field assigns what an earlier one read", order(perm)),
+            main(
+                Blk {
+                    stmts: vec![S::Let(
+                        3,
+                        Record(false, vec![(perm[0], Var(0)), (perm[1], Block(Blk { stmts: vec![S::Do(Assign(0, b(Int(100))))], last: Some(b(em(1, Var(0)))) })), (perm[2], Bin(Op::Add, b(Var(0)), b(Var(1))))]),
+                    )],
+                    last: Some(b(observe())),
+                },
+                vec![T::R],
+            ),
+        ));
+        // the field written second may leave the function: the first ran, the third does not
+        out.push((
+            format!("record literal R {{ {} }}: the second field as written returns", order(perm)),
+            main(
+                Blk {
+                    stmts: vec![S::Let(
+                        3,
+                        Record(
+                            false,
+                            vec![
+                                (perm[0], em(1, Var(0))),
+                                (perm[1], Block(Blk { stmts: vec![S::Do(If1(b(Var(2)), Blk { stmts: vec![S::Do(Ret(b(em(2, Int(5)))))], last: None }))], last: Some(b(em(3, Var(1)))) })),
+                                (perm[2], em(5, Int(1))),
+                            ],
+                        ),
+                    )],
+                    last: Some(b(observe())),
+                },
+                vec![T::R],
+            ),
+        ));
+    }
+    // the target of a (compound) assignment is a field: `x3.f op= rhs` reads `x3.f` before `rhs`
+    // runs, whether `rhs` assigns that field or the whole record, and stores into the record
+    // `x3` holds afterwards; `x3.f = rhs` runs `rhs`, then stores
+    let start = || S::Let(3, Record(false, vec![(0, Var(0)), (1, Var(1)), (2, Int(3))]));
+    let other = || Record(true, vec![(2, Int(7)), (0, Int(8)), (1, Int(9))]);
+    for f in 0..FIELDS.len() {
+        let name = FIELDS[f];
+        out.push((
+            format!("x.{name} += rhs reads x.{name} first: rhs assigns x.{name}"),
+            main(
+                Blk {
+                    stmts: vec![start(), S::Do(E::CAssignF(Op::Add, 3, f, b(Block(Blk { stmts: vec![S::Do(E::AssignF(3, f, b(Int(100))))], last: Some(b(em(1, Int(1)))) }))))],
+                    last: Some(b(observe())),
+                },
+                vec![T::R],
+            ),
+        ));
+        out.push((
+            format!("x.{name} - rhs: the field is read before the right operand assigns it"),
+            main(
+                Blk {
+                    stmts: vec![start()],
+                    last: Some(b(Bin(Op::Sub, b(Field(b(Var(3)), f)), b(Block(Blk { stmts: vec![S::Do(E::AssignF(3, f, b(Int(100))))], last: Some(b(em(1, Field(b(Var(3)), f)))) }))))),
+                },
+                vec![T::R],
+            ),
+        ));
+        out.push((
+            format!("x.{name} -= rhs reads x.{name} first: rhs assigns x"),
+            main(
+                Blk {
+                    stmts: vec![start(), S::Do(E::CAssignF(Op::Sub, 3, f, b(Block(Blk { stmts: vec![S::Do(Assign(3, b(other())))], last: Some(b(em(1, Var(0)))) }))))],
+                    last: Some(b(observe())),
+                },
+                vec![T::R],
+            ),
+        ));
+        out.push((
+            format!("x.{name} = rhs: rhs runs (and may assign x), then the field is stored"),
+            main(
+                Blk {
+                    stmts: vec![
+                        start(),
+                        S::Do(E::AssignF(3, f, b(Block(Blk { stmts: vec![S::Do(Assign(3, b(other()))), S::Do(E::AssignF(3, f, b(em(1, Int(50)))))], last: Some(b(em(2, Field(b(Var(3)), f)))) })))),
+                    ],
+                    last: Some(b(observe())),
+                },
+                vec![T::R],
+            ),
+        ));
+    }
+    out
+}
+
+fn corpus_clauses() -> Vec<(&'static str, Prog)> {
     use E::{Accept, And, Assign, Bin, Block, Bool, CAssign, Ctor, FStr, Field, For, Host, If1, Int, List, Match, Or, Record, Reject, Ret, Try, Var, While};
     let b = |e: E| Box::new(e);
     let em = |k: i32, v: E| Host(H_EMIT, vec![Int(k), v]);
@@ -626,7 +827,7 @@ fn corpus() -> Vec<(&'static str, Prog)> {
             main(
                 T::I,
                 Blk {
-                    stmts: vec![S::Let(3, Record(vec![em(1, Var(0)), em(2, Var(1))])), S::Let(4, List(vec![em(3, Int(1)), em(4, Int(2)), em(5, Int(3))]))],
+                    stmts: vec![S::Let(3, Record(false, vec![(0, em(1, Var(0))), (1, em(2, Var(1))), (2, em(6, Int(3)))])), S::Let(4, List(vec![em(3, Int(1)), em(4, Int(2)), em(5, Int(3))]))],
                     last: Some(b(Field(b(Var(3)), 1))),
                 },
                 vec![T::R, T::L],
@@ -729,7 +930,7 @@ fn main() {
             if !matches!(ended, Ended::Exit(0, _)) {
                 rep.violation("process died or hung while running the hand-written corpus", "crash corpus", json!({"ended": format!("{ended:?}")}));
             }
-            let n: u64 = if thorough { 12_000 } else if args.get(3).map(|s| s == "search").unwrap_or(false) { 3_000 } else { 500 };
+            let n: u64 = if thorough { 12_000 } else if args.get(3).map(|s| s == "search").unwrap_or(false) { 3_000 } else { 1_500 };
             let (mut from, mut crashes) = (0u64, 0u32);
             while from < n && crashes < 4 {
                 let cnt = 50.min(n - from);
@@ -770,7 +971,7 @@ fn main() {
             if total_viol > rep.impl_violations.len() {
                 rep.notes.push(format!("{total_viol} violations found; the {} smallest with distinct keys are reported", rep.impl_violations.len()));
             }
-            rep.notes.push(format!("programs generated: {from}; argument tuples per program: 8; corpus programs: {}", corpus().len()));
+            rep.notes.push(format!("programs generated: {from}; argument tuples per program: 8; corpus programs: {} ({} one per clause of the statement, {} records: 6 written orders x 6 shapes of literal, 3 fields x 4 shapes of reading / assigning a field; {} matches: pattern variant x examinee variant, one named variant + `_`, guarded `_` between two variants)", corpus().len(), corpus_clauses().len(), corpus_records().len(), corpus_matches().len()));
         }
         Some("worker") => {
             if std::env::var("C08_VERBOSE").is_err() {
